@@ -61,7 +61,12 @@ func (d *ownDist) InvCDF(y float64) float64 { return y*3 + 1 }
 
 type rngDist struct{ pwDist }
 
-func (d *rngDist) Rand(r *rand.Rand) float64 { return 42 + r.Float64() }
+func (d *rngDist) Rand(r *rand.Rand) float64 {
+	if r == nil {
+		return 42 + rand.Float64()
+	}
+	return 42 + r.Float64()
+}
 
 func mkDist(a []Tok) (stats.DistCommon, []Tok) {
 	switch a[0].Atom {
@@ -154,7 +159,16 @@ func execRnd(a []Tok) string {
 		}
 		w = stats.InvCDF(d)(y)
 	}
-	return fmtF(v) + " " + fmtF(w) + " " + fmtF(again)
+	// a nil source means the package-level generator: such a call between two draws from an
+	// explicit source must neither consume from that source nor change what it yields next
+	g3, r3 := stats.Rand(d), rand.New(rand.NewSource(seed))
+	a1 := g3(r3)
+	g3(nil)
+	a2 := g3(r3)
+	g4, r4 := stats.Rand(d), rand.New(rand.NewSource(seed))
+	b1, b2 := g4(r4), g4(r4)
+	same := func(x, y float64) bool { return math.Float64bits(x) == math.Float64bits(y) }
+	return fmtF(v) + " " + fmtF(w) + " " + fmtF(again) + " " + fmtB(same(a1, b1) && same(a2, b2) && r3.Int63() == r4.Int63())
 }
 
 // randPW builds a random well-formed piecewise CDF with dyadic levels.
